@@ -25,6 +25,9 @@ for d in seeded/$pat/; do
   secs=$(echo "$line" | sed -n 's/.* rc=[0-9]* \([0-9]*\)s.*/\1/p')
   clause=$(echo "$line" | sed -n 's/.*clause \([^ ]* \[[^]]*\]\).*/\1/p')
   want=$([ "$kind" = benign ] && echo 0 || echo 1)
+  # a change judged not to break the property as stated names its expected exit
+  exp=$(python3 -c 'import json,sys; print(json.load(open(sys.argv[1])).get("expected_exit",""))' "$d/meta.json" 2>/dev/null)
+  [ -n "$exp" ] && { want="$exp"; kind="$kind (judged: see meta.json)"; }
   mark=""; if [ "$rc" != "$want" ]; then mark=" **UNEXPECTED**"; bad=$((bad+1)); fi
   echo "| $id | $kind | $prop | $rc$mark | $secs | $clause |" >> "$tmp"
   echo "$id $kind $prop rc=$rc (want $want) ${secs}s $clause"
